@@ -11,6 +11,7 @@
 #include <sys/mman.h>
 #include <sys/syscall.h>
 #include <sys/wait.h>
+#include <time.h>
 #include <unistd.h>
 
 static void do_raise(int s) {
@@ -61,6 +62,16 @@ int main(int argc, char **argv) {
   if (!strcmp(m, "cpu")) {
     volatile unsigned long x = 0;
     for (;;) x++;
+  }
+  if (!strcmp(m, "cpufor")) { // burn user CPU for N ms, then exit 0
+    long ms = atol(argv[2]);
+    struct timespec t;
+    volatile unsigned long x = 0;
+    for (;;) {
+      for (int i = 0; i < 100000; i++) x++;
+      clock_gettime(CLOCK_PROCESS_CPUTIME_ID, &t);
+      if (t.tv_sec * 1000 + t.tv_nsec / 1000000 >= ms) _exit(0);
+    }
   }
   if (!strcmp(m, "grow")) {
     int fd = open(argv[2], O_CREAT | O_WRONLY | O_TRUNC, 0644);
